@@ -54,7 +54,7 @@ func runC01(run *Run, replay string) {
 }
 
 func runC02(run *Run, replay string) {
-	run.Res.Rule = "same scenarios as C01; every range-typed field of every returned value is checked against the file content with HCL's own scanner: file of the reported path, 0<=start<=end<=len, line/column = scanner position of the byte offset; distinct non-trivial = distinct (file text, query, offset) returning at least one range"
+	run.Res.Rule = "same scenarios as C01; every range-typed field of every returned value is checked against the file content with HCL's own scanner: file of the reported path, 0<=start<=end<=len, line/column = scanner position of the byte offset; plus generated multi-path worlds (1-3 paths with their own files, unreadable paths, path/direct origins): the two decoder lookups must pair every range with the path that owns its file; distinct non-trivial = distinct (file text, query, offset) returning at least one range"
 	o := omniFor(run)
 	o.OnScenario = modelCasesHook(run)
 	nranges := 0
@@ -97,6 +97,11 @@ func runC02(run *Run, replay string) {
 		}
 	})
 	run.Res.Hypotheses["ranges_checked"] = nranges
+	nw := 150
+	if run.Thorough {
+		nw = 3000
+	}
+	c02Worlds(run, nw)
 }
 
 // jsonLineHasEscape: the line the range starts on contains a backslash before the range's end
